@@ -1,3 +1,4 @@
+import Oidc.Proofs.CodeVerify
 import Oidc.Shapes
 import Oidc.Proofs.VerifyRevoke
 import Oidc.Facts
@@ -95,5 +96,61 @@ theorem text_NewTokenCache_ok : Oidc.Shapes.Text_NewTokenCache := by unfold Oidc
 theorem text_cleanupReplayCache_ok : Oidc.Shapes.Text_cleanupReplayCache := by unfold Oidc.Shapes.Text_cleanupReplayCache; rfl
 theorem text_TraefikOidc_startTokenCleanup_ok : Oidc.Shapes.Text_TraefikOidc_startTokenCleanup := by unfold Oidc.Shapes.Text_TraefikOidc_startTokenCleanup; rfl
 theorem text_TraefikOidc_RevokeTokenWithProvider_ok : Oidc.Shapes.Text_TraefikOidc_RevokeTokenWithProvider := by unfold Oidc.Shapes.Text_TraefikOidc_RevokeTokenWithProvider; rfl
+
+/-! ## The same statements about the code itself: the functions below are `Oidc.Generated.Code`, which `tools/go2lean` translates
+    from /repo's source, statement by statement, on every run (meaning of the Go constructs: `Oidc/GoLib.lean`) -/
+open Oidc.Generated Oidc.CodeRefine in
+/-- main.go `VerifyToken` (with `performPreVerificationChecks` and `cacheVerifiedToken`) as translated, run over any
+    implementation of the two caches and the limiter that behaves, through `abs`, like the model's (`OpsSpec`), takes the
+    model's step: same verdict, same state -/
+theorem code_VerifyToken {σ : Type} (ops : Go.VOps σ) (abs : σ → V) (F : Facts) (S : OpsSpec ops abs F)
+    (now : Int) (t : Go.Inst) (tok : Go.Str) (w : σ)
+    (hF : F.blTTL = Code.defaultBlacklistDuration)
+    (hAgree : (t.parseJWT tok).2 = none → t.extractClaims tok = ((t.parseJWT tok).1.Claims, none)) :
+    abs (Code.TraefikOidc_VerifyToken ops now t tok w).2 = (verify F (codeTok t) (abs w) now (String.ofList tok)).1 ∧
+    (Code.TraefikOidc_VerifyToken ops now t tok w).1.isNone = (verify F (codeTok t) (abs w) now (String.ofList tok)).2 :=
+  VerifyToken_refines ops abs F S now t tok w hF hAgree
+
+open Oidc.Generated Oidc.CodeRefine in
+/-- main.go `RevokeToken` as translated takes the model's step -/
+theorem code_RevokeToken {σ : Type} (ops : Go.VOps σ) (abs : σ → V) (F : Facts) (S : OpsSpec ops abs F)
+    (now : Int) (t : Go.Inst) (tok : Go.Str) (w : σ)
+    (hF : F.blTTL = 24 * Go.Hour) (hS : F.skew = Code.ClockSkewToleranceFuture) (hR : F.revokeUntilExp = true)
+    (claims : Go.Obj) (hc : t.extractClaims tok = (claims, none)) (hx : (Go.asF64 (Go.mapGet claims ['e','x','p'])).2 = true) :
+    abs (Code.TraefikOidc_RevokeToken ops now t tok w) = revoke F (codeTok t) (abs w) now (String.ofList tok) :=
+  RevokeToken_refines ops abs F S now t tok w hF hS hR claims hc hx
+
+open Oidc.Generated Oidc.CodeRefine in
+/-- hence, for the code: `RevokeToken` followed by `VerifyToken` of the same token — at once or at any instant of the listing
+    period — is refused, from any state of the caches and the limiter -/
+theorem code_revoke_immediate {σ : Type} (ops : Go.VOps σ) (abs : σ → V) (F : Facts) (S : OpsSpec ops abs F)
+    (tr now : Int) (t : Go.Inst) (tok : Go.Str) (w : σ)
+    (hF : F.blTTL = 24 * Go.Hour) (hS : F.skew = Code.ClockSkewToleranceFuture) (hR : F.revokeUntilExp = true)
+    (hAgree : (t.parseJWT tok).2 = none → t.extractClaims tok = ((t.parseJWT tok).1.Claims, none))
+    (claims : Go.Obj) (hc : t.extractClaims tok = (claims, none)) (hx : (Go.asF64 (Go.mapGet claims ['e','x','p'])).2 = true)
+    (h2 : now < tr + revTTL F (codeTok t) tr (String.ofList tok)) :
+    (Code.TraefikOidc_VerifyToken ops now t tok (Code.TraefikOidc_RevokeToken ops tr t tok w)).1.isSome = true := by
+  have hv := (VerifyToken_refines ops abs F S now t tok (Code.TraefikOidc_RevokeToken ops tr t tok w)
+    (by rw [hF, default_is_24h]) hAgree).2
+  rw [RevokeToken_refines ops abs F S tr t tok w hF hS hR claims hc hx] at hv
+  rw [revoke_immediate F (codeTok t) (abs w) tr now (String.ofList tok) h2] at hv
+  cases h : (Code.TraefikOidc_VerifyToken ops now t tok (Code.TraefikOidc_RevokeToken ops tr t tok w)).1 <;> simp [h] at hv ⊢
+
+open Oidc.Generated Oidc.CodeRefine in
+/-- and an accept by the code implies a from-scratch acceptance at that instant (`parseJWT` succeeds and the translated
+    `VerifyJWTSignatureAndClaims` returns nil), from any state whose token cache holds only verified, unexpired tokens -/
+theorem code_valid_implies_scratch {σ : Type} (ops : Go.VOps σ) (abs : σ → V) (F : Facts) (S : OpsSpec ops abs F)
+    (now last : Int) (hl : last ≤ now) (t : Go.Inst) (tok : Go.Str) (w : σ)
+    (hF : F.blTTL = Code.defaultBlacklistDuration)
+    (hAgree : (t.parseJWT tok).2 = none → t.extractClaims tok = ((t.parseJWT tok).1.Claims, none))
+    (hint : ∀ id a n, (codeTok t).scratch id a = true → a ≤ n → n ≤ (codeTok t).exp id → (codeTok t).scratch id n = true)
+    (hinv : TcInv (codeTok t) (abs w).tc last)
+    (hok : (Code.TraefikOidc_VerifyToken ops now t tok w).1 = none) :
+    (t.parseJWT tok).2 = none ∧ Code.TraefikOidc_VerifyJWTSignatureAndClaims now t (t.parseJWT tok).1 tok = none := by
+  have hv := (VerifyToken_refines ops abs F S now t tok w hF hAgree).2
+  rw [hok] at hv
+  have := (valid_implies_scratch F (codeTok t) (abs w) now (String.ofList tok) last hl hint hinv hv.symm).1
+  simp only [codeTok, String.toList_ofList, Bool.and_eq_true, Option.isNone_iff_eq_none] at this
+  exact this
 
 end Oidc.Props.C14
